@@ -54,6 +54,8 @@ class Assembly:
         self.rewrites = []     # (rule, file, line, what)
         self.links = []        # callee contracts linked to the unit that proves them
         self._src = {}
+        self.degrade = False   # second attempt after a lost anchor: drop the annotations whose anchor is gone
+        self.degraded = []     # what was dropped
 
     def src(self, rel):
         if rel not in self._src:
@@ -300,6 +302,9 @@ def process_fn(asm, header_line, block, tmpl_line):
     for (r, old, new, n) in subs:
         c = body.count(old)
         if c != n:
+            if asm.degrade and c == 0:
+                asm.degraded.append('%s::%s: substitution %s %r not applied (text no longer present)' % (container, name, r, old))
+                continue
             raise ScanError('lost anchor: %s::%s body: %r occurs %d times (need %d)' % (container, name, old, c, n))
         if old.count('\n') != new.count('\n'):
             raise ScanError('template error: substitution must preserve line count: %r' % old)
@@ -315,6 +320,9 @@ def process_fn(asm, header_line, block, tmpl_line):
             if not cands and 'optional' in lkv:
                 asm.rewrites.append(dict(rule='R2', file=rel, line=f['line'], what='optional loop `%s` absent: invariants not inserted' % snip))
                 rec.setdefault('missing_optional', []).append(snip)
+                continue
+            if asm.degrade and ((nth is None and len(cands) != 1) or (nth is not None and nth >= len(cands))):
+                asm.degraded.append('%s::%s: loop annotations for %r not inserted (loop not found)' % (container, name, snip))
                 continue
             if nth is None and len(cands) != 1:
                 raise ScanError('lost anchor: %s::%s: loop header %r matches %d loops' % (container, name, snip, len(cands)))
@@ -338,7 +346,13 @@ def process_fn(asm, header_line, block, tmpl_line):
         if 'optional' in gkv and snip not in body:
             rec.setdefault('missing_optional', []).append(snip)
             continue
-        k = _find_nth(body, snip, nth, '%s::%s ghost' % (container, name))
+        try:
+            k = _find_nth(body, snip, nth, '%s::%s ghost' % (container, name))
+        except ScanError:
+            if asm.degrade:
+                asm.degraded.append('%s::%s: ghost block at %r not inserted (anchor not found)' % (container, name, snip))
+                continue
+            raise
         pos = k + len(snip) if where == 'after' else k
         inserts.append((pos, lines, 'ghost'))
         rule(gkv.get('rule', 'R8'), '%s (%d lines) %s %r' % ('closure contract' if gkv.get('rule') == 'R2' else 'ghost block', len(lines), where, snip),
@@ -514,8 +528,9 @@ def linked_spec(path, fname, cont=None):
     raise ScanError('template error: no //@fn block emitting %s with a //@spec in %s' % (fname, path))
 
 
-def assemble(repo, template_path):
+def assemble(repo, template_path, degrade=False):
     asm = Assembly(repo, template_path)
+    asm.degrade = degrade
     loaded = _load_template(template_path)
     lines = [l for l, _ in loaded]
     asm.tmpl_origin = [o for _, o in loaded]
